@@ -470,7 +470,11 @@ carquet_status_t carquet_batch_reader_next(
             int64_t values_read = carquet_column_read_batch(
                 col_reader, col_data->data, rows_to_read, def_levels, NULL);
 
-            if (values_read < 0) {
+            /* rows_to_read never exceeds what the row group still holds, so a
+             * short read means the column reader hit an error part-way (it
+             * then returns what it had): the batch would have columns of
+             * different lengths */
+            if (values_read < rows_to_read) {
                 read_error = true;
                 free(def_levels);
                 continue;
